@@ -143,6 +143,12 @@ def run(ctx):
         out.dist["mapper_style:" + style] += 1
         if k < 3:
             out.sample(dict(tree=spec, objs=objs))
+    # distinct sibling objects that have the SAME str() (and default ids): only the mapper can tell them apart
+    for k, spec in enumerate([[(27, []), (33, [])], [(0, [(27, [(33, [])]), (33, [])]), (27, [])], [(33, [(27, []), (28, [])]), (27, [(33, [])])]]):
+        for style in ("inplace", "fresh"):
+            one_tree(ctx, out, spec, True, k % 2 == 0, style)
+            out.count((repr(spec), True, style), True)
+            out.dist["same_str_siblings"] += 1
     # emptied trees
     for how in ("clear", "remove"):
         t = Tree("e")
